@@ -53,6 +53,16 @@ CHECKS = {
     technique='TLA+ spec PipeFraming.tla (token stream / error-with-zero-bytes) with TLC-enumerated file sets x requests replayed on unpack_to_pipe and the CLI; recorded write events validated by TLC (PipeTrace.tla)',
     text='TLC enumerates 360 (quick) / ~2000 (thorough) combinations of file sets (1-3 files, 1-D, multi-dimensional and empty columns of widths 1/2/4/8, files lacking a field, a non-file path) and request sequences (repeated and unknown fields) with the expected count/width/payload token stream or error; each is run on real ASDF files through unpack_to_pipe with a recording pipe and, for a subset, through the CLI and a real OS pipe; byte streams are compared and the recorded write-event sequences are validated by TLC; corrupted traces must be rejected.',
     note='Files are uncompressed (asdf 5.4 cannot write blsc); the blsc reader is covered by C14.'),
+ 'C01': dict(
+    design='DESIGN.md §5 C01',
+    technique='TLA+ spec CatalogIndex.tla: TLC proves the loader algorithm (re-indexing with A->B carry, cleaned-away zeroing, per-file halo ranges, original+merged zipper) equals the declarative per-halo particle table over the whole small-catalog space; TLC-computed expected tables replayed on real synthetic ASDF catalogs through CompaSOHaloCatalog',
+    text='TLC evaluates, for every catalog of <=2 superslabs x <=2 halos over 4 (quick) / 6 (thorough) halo types, every row mask, {A,B,AB} and cleaned on/off, that the loader algorithm as coded stays in bounds, writes every subsample slot exactly once and yields exactly the declarative table and index columns (four broken variants rejected). For 70 (quick) / 600 (thorough) catalogs up to 3x3 halos TLC computes the expected table of unique particle tokens; each catalog is written as real ASDF files (halo_info, halo_rv/pid A/B, cleaning files) and loaded with rotated options (cleaned, A/B, pos/vel/pid subsets, unpack_bits, passthrough, directory / halo_info dir / file list / single file, units off); tokens recovered independently from pos, vel and pid of every halo slice, the index columns and the table length are compared. Light-cone catalogs are checked through their stored index columns.',
+    note='Synthetic uncompressed catalogs (the shipped sample is blosc-compressed). Passthrough only with cleaned=True and fields=all. Small-scope exhaustiveness; larger catalogs sampled.'),
+ 'C03': dict(
+    design='DESIGN.md §5 C03',
+    technique='TLA+ spec CatalogIndex.tla (row masks, per-file compaction, ConcatTheorem) with TLC as oracle for (catalog, mask) pairs and single-file loads; real loads with filter_func and file lists compared',
+    text='The exhaustive TLC run of C01 covers every row mask (layer A models per-file compaction and post-filter file offsets; the pre-filter-offset variant is rejected) and proves the concatenation theorem. For 40 (quick) / 300 (thorough) catalogs TLC computes expected tables for masks all / none / single rows dropped / random / one slab emptied, applied to the real loader as filter_func on id, plus a threshold on N that distinguishes N_total from N (cleaned rule); every ordered subset of the superslab files is loaded as a list and compared with the concatenation of TLC-computed single-file loads; invalid path sets must raise; light-cone catalogs are loaded with filters.',
+    note='Same trusted base as C01.'),
 }
 NA = [
  dict(property_id='C18', reason='Pure real-valued geometry (square roots, sines, cross products) on a fixed finite domain of 65 340 codes: no state, order, schedule or index structure for a TLA+ transition system, and orthonormality/coverage are floating-point facts outside TLC integer arithmetic; an exhaustive numeric sweep would be a different technique (DESIGN.md §7).'),
